@@ -87,6 +87,10 @@ CentresAgree(e) ==
           /\ IF t % 8 # 0 THEN e.ctr_v[i][j][m] = t \div 8
              ELSE e.ctr_v[i][j][m] \in {t \div 8 - 1, t \div 8}    \* centre on a voxel boundary
 
+\* the local corners of a patch are its global corners seen from its own top-left corner
+LocalCornersAgree(e) ==
+  \A i \in 1..e.k[1] : \A j \in 1..e.k[2] : \A c \in 1..4 :
+     e.lcv[i][j][c] = <<e.cv[i][j][c][1] - e.cv[i][j][1][1], e.cv[i][j][c][2] - e.cv[i][j][1][2]>>
 PatchClauses(e) ==
   << <<"TilingOk", TilingOk(e)>>,
      <<"CornersRectangular", CornersRectangular(e)>>,
@@ -96,6 +100,7 @@ PatchClauses(e) ==
      <<"AssembleReproduces", e.assembled = 1>>,
      <<"BlendAssembleTotal", e.blend # -1>>,                 \* blend_and_assemble() returns ...
      <<"BlendedReassemblyReproduces", e.blend # 0>>,          \* ... the base image (unmodified patches, weights sum to one)
+     <<"LocalCornersAgree", LocalCornersAgree(e)>>,
      <<"CornersAgree", CornersAgree(e)>>,
      <<"CentresAgree", CentresAgree(e)>> >>
 AllFailingP(cl) == {cl[i][1] : i \in {j \in DOMAIN cl : ~cl[j][2]}}
